@@ -88,7 +88,7 @@ def run_one(res, ctx, root, rng, idx):
     if cause == "template-both":
         template = "dropboth"
     elif cause == "template-one":
-        template = rng.choice(["droplic", "dropcop"])
+        template = rng.choice(["droplic", "dropcop", "droplic-commented", "dropboth-commented"])
     if template:
         args += ["--template", annot.template_arg(template)]
     if cause == "single-line":
